@@ -1043,7 +1043,14 @@ class qsbr final {
   /// Get the current QSBR state word.
   /// \note Made public for tests and asserts, do not call from the user code.
   [[nodiscard]] qsbr_state::type get_state() const noexcept {
+#ifdef UNODB_DETAIL_VERIF_HOOKS
+    UNODB_DETAIL_VERIF_SCHED(qsbr_load, &state);
+    const auto verif_result = state.load(std::memory_order_acquire);
+    UNODB_DETAIL_VERIF_OBS(qsbr_load, &state, verif_result);
+    return verif_result;
+#else
     return state.load(std::memory_order_acquire);
+#endif
   }
 
   /// Check if there are no orphaned (issued by threads that have quit
@@ -1277,6 +1284,7 @@ inline void qsbr_per_thread::on_next_epoch_deallocate(
 ) {
   UNODB_DETAIL_ASSERT(!is_qsbr_paused());
 
+  UNODB_DETAIL_VERIF_OBS(mem_retire, pointer, 0);
   const auto current_qsbr_state = qsbr::instance().get_state();
   const auto current_global_epoch = qsbr_state::get_epoch(current_qsbr_state);
   const auto single_thread_mode =
